@@ -105,6 +105,9 @@ func c02(r *Report) propMeta {
 	r.NotAfter("resolve-before-expiry (invariant behind the accepted MustGetRequest panic)", "x/oracle.EndBlocker", CallEff("Keeper.ResolveRequest"), CallEff("Keeper.ProcessExpiredRequests"))
 	r.NotAfter("aggregate-before-expiry (invariant behind the accepted MustGetSigningAttempt panic)", "x/tss/keeper.Keeper.HandleSigningEndBlock", CallEff("Keeper.AggregatePartialSignatures"), CallEff("Keeper.HandleExpiredSignings"))
 
+	r.Rule("C02.R8", "trusted base cross-checked against the dependency source")
+	r.TrustedBase("trusted-base")
+
 	r.Rule("C02.R7", "swallowed-error census in begin/end-block code")
 	r.Swallowed("swallowed", fnSet(roots.ABCI), c02SwallowAllow, 3)
 
@@ -147,7 +150,7 @@ func c02(r *Report) propMeta {
 			"R2 every explicit panic / Must* call reachable without a recover barrier from a begin/end-block root is in the frozen accepted table (a new one fails with its call path)",
 			"R3 signing creation / packet sending reached from end-block sits under a CacheContext whose writeFn is gated by err==nil, and cross-module routes sit under a defer-recover that assigns the named error result",
 			"R4 orderBeginBlockers/orderEndBlockers are literals of constants containing every module that implements Begin/EndBlock exactly once",
-			"R7 every error that begin/end-block code tests and then does not propagate is in a frozen, justified table (16 sites today); a new swallowed error fails with its call path", "R6 every governance parameter that consensus-reachable code divides by (integer / or %) is validated positive, and every one used as a percentage (NewDecWithPrec(x,2)) is validated <= 100 in its Params.Validate (finding F3, fixed)", "R5 bandrng.NewRng is called only by the two committee selectors and its inputs derive only from the rolling seed, the id/nonce parameter and the chain id",
+			"R8 the two atomicity axioms (baseapp.runTx branch-and-write-on-success under recover; ibc-go RecvPacket cache-and-write-on-successful-ack) are read off the dependency source at the go.mod versions", "R7 every error that begin/end-block code tests and then does not propagate is in a frozen, justified table (16 sites today); a new swallowed error fails with its call path", "R6 every governance parameter that consensus-reachable code divides by (integer / or %) is validated positive, and every one used as a percentage (NewDecWithPrec(x,2)) is validated <= 100 in its Params.Validate (finding F3, fixed)", "R5 bandrng.NewRng is called only by the two committee selectors and its inputs derive only from the rolling seed, the id/nonce parameter and the chain id",
 		},
 		Undecided: []string{"feasibility of the accepted panic sites (each rests on a store invariant recorded in the table, not proven)", "determinism of dependencies (SDK, go-owasm, IAVL)", "equality of gas across nodes beyond the absence of nondeterministic constructs"},
 		Assume:    []string{"begin/end-block panics are not recovered by the SDK; message panics are (runTx)", "VTA call graph over-approximates dynamic dispatch in repo code", "KV iterators are ordered"},
